@@ -258,6 +258,8 @@ func valueLeaves(v ssa.Value, chain []*ssa.Call, depth int) []leafVal {
 		return []leafVal{{v, chain}}
 	}
 	switch x := v.(type) {
+	case *ssa.ChangeType:
+		return valueLeaves(x.X, chain, depth+1)
 	case *ssa.Phi:
 		var out []leafVal
 		for _, e := range x.Edges {
@@ -305,7 +307,7 @@ func valueLeaves(v ssa.Value, chain []*ssa.Call, depth int) []leafVal {
 		}
 	case *ssa.UnOp:
 		if x.Op == token.MUL {
-			if cell, ok := x.X.(*ssa.Alloc); ok {
+			if cell := cellOf(x.X); cell != nil {
 				sts := storesTo(cell)
 				if len(sts) > 0 && len(sts) <= 4 {
 					var out []leafVal
